@@ -154,6 +154,7 @@ def run(ctx):
     import ob_outbytes
     import file_corr
     import export_thms
+    ctx.gen_tables.update(ob_outbytes.regen())   # snaplen literal of run() → lean/TLX/Gen/WriterConsts.lean, BEFORE the proofs
     ctx.prove(["TLX.Props.C06"] + ob_outbytes.MODULES + export_thms.MODULES)
     ctx.require_theorems(c06_model.THEOREMS + ob_outbytes.THEOREMS + export_thms.THEOREMS)
     c06_model.run_model(ctx)
